@@ -94,6 +94,26 @@ func init() {
 	for k := 0; k < 4; k++ {
 		add(new(big.Int).Set(walletKeys[k].X), new(big.Int).Sub(p, walletKeys[k].Y))
 	}
+	// wallets 8..11: keys with a short coordinate (leading zero byte in the 32-byte encoding):
+	// 8: short X, 9: short Y, 10/11: their mirrors. Any key derived from the coordinates without
+	// left-padding differs from the padded encoding exactly for these.
+	short := func(coordX bool) (*big.Int, *big.Int) {
+		for k := int64(2000); ; k++ {
+			x, y := tecdsa.Curve.ScalarBaseMult(big.NewInt(k).Bytes())
+			c := y
+			if coordX {
+				c = x
+			}
+			if c.BitLen() <= 248 {
+				return x, y
+			}
+		}
+	}
+	add(short(true))
+	add(short(false))
+	for k := 8; k < 10; k++ {
+		add(new(big.Int).Set(walletKeys[k].X), new(big.Int).Sub(p, walletKeys[k].Y))
+	}
 }
 
 type step struct {
@@ -337,13 +357,18 @@ func gen(r *hx.Rng, n int, tier string) []string {
 			continue
 		}
 		if r.Chance(1, 30) {
-			ops = append(ops, "hb "+hx.Pick(r, []string{"0/a", "8/u", "0/a70", "1/a5i0", "x", "0/a-1i2", "0/u,,1/u"}))
+			ops = append(ops, "hb "+hx.Pick(r, []string{"0/a", "12/u", "0/a70", "1/a5i0", "x", "0/a-1i2", "0/u,,1/u"}))
 			continue
 		}
 		nw := r.Range(1, 4)
 		// wallet ids of this history: plain, or including mirrored pairs (k, k+4)
 		ids := []int{0, 1, 2, 3}
-		if r.Chance(1, 2) {
+		if r.Chance(1, 4) { // keys with a short X / Y coordinate and their mirrors
+			ids = []int{8, 9, 10, 11}
+			if r.Chance(1, 2) {
+				ids = []int{9, 0, 8, 11}
+			}
+		} else if r.Chance(1, 2) {
 			b := r.Intn(4)
 			ids = []int{b, b + 4, (b + 1) % 4, (b+1)%4 + 4}
 			if nw < 2 {
